@@ -1126,6 +1126,34 @@ fn mode_panic_storm(r: &mut Runner) {
         r.run(&sc, "panic-storm");
         r.rep().obs("panic_storm_histories", 1);
     }
+    // the same with failures instead of panics: every one of thousands of errors reaches the handler ("report the first N,
+    // then sample" limits sit at round numbers too)
+    let mut esizes = vec![(1100usize, None, 64usize), (2100, Some(64usize), 32)];
+    if r.args.flag("big") {
+        esizes.extend([(4200, None, 128), (9000, Some(1024), 256)]);
+    }
+    for (n_errs, cap, batch) in esizes {
+        if SPIN_SEEN.load(std::sync::atomic::Ordering::SeqCst) {
+            return;
+        }
+        let mut ops: Vec<SOp> = Vec::new();
+        let mut queued = 0;
+        for i in 0..n_errs {
+            ops.push(SOp::Emit { h: 0, out: Out::Err((i % 10) as u8) });
+            queued += 1;
+            if queued == batch || i + 1 == n_errs {
+                for _ in 0..queued {
+                    ops.push(SOp::Release);
+                }
+                queued = 0;
+            }
+        }
+        ops.push(SOp::Emit { h: 0, out: Out::Ok });
+        ops.push(SOp::Release);
+        let sc = Scenario { cap, handler: true, ops };
+        r.run(&sc, "error-storm");
+        r.rep().obs("error_storm_histories", 1);
+    }
 }
 
 
